@@ -59,6 +59,8 @@ func cells(seed int) []Cell {
 						}
 						c := Cell{Mode: mode, Signer: signer, Intake: intake, Disk: disk, Bg: bg}
 						h := sim.Spec{Issuers: 1 + r.IntN(2), Config: sim.Config{Disk: disk, Background: bg, Sig: mode, Strict: true, TrustSigners: true}}
+						// in a quarter of the cells the signer certificates are past their notAfter (the persisted one, too)
+						h.Config.ExpiredSigners = r.IntN(4) == 0
 						kind := signer
 						if signer == "rekeyed-trusted" {
 							// the CA was re-keyed: a certificate with the same name and the new key is a configured trusted
@@ -216,7 +218,7 @@ func runCell(c Cell, x *ev.Ctx) error {
 var spec = ev.Spec[Cell]{
 	ID:          "C16",
 	Run:         runCell,
-	Rule:        "exhaustive matrix: signature mode {unset, verify, verify_log, none} x signer {resolvable, unknown signer, wrong signature by a same-name sibling, re-keyed CA: the same-name sibling is a configured trusted signer} x intake path {provision-time crl_file, provision-time crl_url, first CDP fetch, refresh to a newer list, refresh after a restart (disk)} x storage x fetch mode, plus 48 cells in which a configured list accepted under verify_log / none is met again after a restart under verify / unset, plus 8 cells in which the trusted signer list is emptied across a restart while the configured location serves a newer list of the (formerly trusted) signer, plus 48 cells in which an (empty) distribution-point list taken in under verify_log / none is refreshed with a list that fails verification after a restart under verify / unset (lenient, so that the verdicts do not depend on whether the stored unverified list is kept); each cell is expanded into a history (probe handshakes before/after the intake, then origin broken, restart, probe handshakes again) executed on a real checker and compared with the reference model: under verify/unset a list is in force iff signer resolvable and signature right, on every path and after restart; under verify_log/none every parseable list is in force, provisioning succeeds and a refresh brings the NEW content into force. List contents, AKI presence and encoding are drawn from VERIF_SEED. Every cell is non-trivial.",
+	Rule:        "exhaustive matrix: signature mode {unset, verify, verify_log, none} x signer {resolvable, unknown signer, wrong signature by a same-name sibling, re-keyed CA: the same-name sibling is a configured trusted signer} x intake path {provision-time crl_file, provision-time crl_url, first CDP fetch, refresh to a newer list, refresh after a restart (disk)} x storage x fetch mode, plus 48 cells in which a configured list accepted under verify_log / none is met again after a restart under verify / unset, plus 8 cells in which the trusted signer list is emptied across a restart while the configured location serves a newer list of the (formerly trusted) signer, plus 48 cells in which an (empty) distribution-point list taken in under verify_log / none is refreshed with a list that fails verification after a restart under verify / unset (lenient, so that the verdicts do not depend on whether the stored unverified list is kept); each cell is expanded into a history (probe handshakes before/after the intake, then origin broken, restart, probe handshakes again) executed on a real checker and compared with the reference model: under verify/unset a list is in force iff signer resolvable and signature right, on every path and after restart; under verify_log/none every parseable list is in force, provisioning succeeds and a refresh brings the NEW content into force. List contents, AKI presence, encoding and whether the signer certificates are past their notAfter are drawn from VERIF_SEED. Every cell is non-trivial.",
 	Assumptions: []string{"configured CRLs in mode verify need a configured trusted signer (no handshake chain exists at provisioning); the cells configure one"},
 }
 
